@@ -25,15 +25,20 @@ class MethodSpec:
         self.pre = ""             # extra statements at the start of an implementation body
         self.typed_recv = False   # write the receiver as `self: &Self` / `self: &'a Self`
         self.recv_mut = False     # `&mut self` (set by C07 for statically delegated traits only)
+        self.mconst = None        # None | "before" | "after": a method-level const parameter KM declared before / after the type parameters
         self.extra_tparam = False # a method type parameter `U: 'static` that no argument mentions (callers need a turbofish)
 
     def generics_text(self, extra_first=None):
         items = list(self.lifetimes)
         if extra_first:
             items += extra_first
+        if self.mconst == "before":
+            items.append("const KM: usize")
         items += ["%s%s" % (n, (": " + " + ".join(b)) if b else "") for n, b in self.mgenerics]
         if self.extra_tparam:
             items.append("U: 'static")
+        if self.mconst == "after":
+            items.append("const KM: usize")
         return ("<" + ", ".join(items) + ">") if items else ""
 
     def cname(self):
@@ -142,6 +147,11 @@ def random_method(rng, name, allow_async=True, allow_generic=True, dyn_safe=Fals
     if m.ret == "generic":
         bounds = ["::core::fmt::Debug"] + (["::core::marker::Send"] if m.is_async else [])
         m.mgenerics.append(("M", bounds))
+        if not m.extra_tparam and rng.random() < 0.35:
+            m.mconst = rng.choice(["before", "before", "after"])
+            nm = rng.choice([x for x in PLAIN_NAMES if x not in taken])
+            taken.add(nm)
+            m.params.append(Param(TYPES["arr"], "plain", [nm], generic="[u8; KM]"))
         nm = rng.choice([x for x in PLAIN_NAMES if x not in taken])
         taken.add(nm)
         m.params.append(Param(TYPES["i32"], "plain", [nm], generic="M"))
@@ -177,13 +187,13 @@ class TraitSpec:
         if self.defaults:
             g = (g + " = i32") if g else None
             c = (c + " = 3") if c else None
-        items = (["'t"] if self.lt_param else []) + [x for x in ([c, g] if self.const_pos == "before" else [g, c]) if x]
+        items = (["'t", "'u: 't"] if self.lt_param else []) + [x for x in ([c, g] if self.const_pos == "before" else [g, c]) if x]
         return ("<" + ", ".join(items) + ">") if items else ""
 
     def args_text(self):
         g = "i32" if self.generic else None
         c = "3" if self.const_pos else None
-        items = (["'static"] if self.lt_param else []) + [x for x in ([c, g] if self.const_pos == "before" else [g, c]) if x]
+        items = (["'static", "'static"] if self.lt_param else []) + [x for x in ([c, g] if self.const_pos == "before" else [g, c]) if x]
         return ("<" + ", ".join(items) + ">") if items else ""
 
     def source(self):
